@@ -230,6 +230,13 @@ def _rand_p(rng, nreg, dens, rich, reg_inherited):
       p["kids"].append({"k": "br"})
     else:
       p["kids"].append(_rand_ruby(rng, rich))
+  if rng.random() < 0.12:
+    # markup that only forms across text-node boundaries: "--" ending one unstyled span, ">" starting the next
+    # (also "&" + "amp;"), which a reader produces for <span>x--</span><span>&gt;y</span>.  A literal "<b>" formed this way
+    # is left out: SubRip cannot represent it (same format limitation as the known finding C07-srt-arrow-in-text).
+    a, b = rng.choice([("x--", ">y"), ("-", "->"), ("--", ">"), ("&", "amp;")])
+    p["kids"].append({"k": "span", "sp": "", "st": {}, "kids": [{"k": "t", "s": a}]})
+    p["kids"].append({"k": "span", "sp": "", "st": {}, "kids": [{"k": "t", "s": b}]})
   if nreg and not reg_inherited and p["reg"] < 0 and any(k["k"] == "ruby" for k in p["kids"]):
     # a ruby in a paragraph that no region selects makes ISD generation itself raise (outside C06/C07): keep it selected
     p["reg"] = rng.randrange(nreg)
